@@ -35,6 +35,7 @@ var manifestations = []manifest{
 	{"missing-key", "hard", "mj", 1},
 	{"wrong-type", "hard", "mj", 1},
 	{"bad-stage-defs", "hard", "s", 0},
+	{"missing-stage-defs", "hard", "s", 0}, // detected after the heartbeat timeout (60 simulated minutes)
 	{"extra-key", "benign", "mj", 1},
 }
 
@@ -293,7 +294,7 @@ func checkFailure(r *Run, twin *Run, ev *Eval, fj *JobRec, m manifest, persisten
 		if last != 0 {
 			oracle := "restart-after-fault-removed-failed"
 			switch m.name {
-			case "truncated-outs", "invalid-json", "missing-outs", "missing-key", "wrong-type", "bad-stage-defs":
+			case "truncated-outs", "invalid-json", "missing-outs", "missing-key", "wrong-type", "bad-stage-defs", "missing-stage-defs":
 				// the job itself recorded completion; martian attributes the error
 				// to the join or the fork and never re-runs the job
 				oracle = "restart-after-bad-outs-of-completed-job-failed"
